@@ -626,7 +626,38 @@ func keyBinding(r *fw.Run) {
 
 var textAlpha = []string{"a", "\n", "— ", " ", "é", "\x01", "\xff", "\ufffd"}
 
+// FirstCalls is the menu of the fresh-process call-order check (keys are generated from fixed seeds, so
+// every process sees the same keys and signatures).
+func FirstCalls() []fw.Call {
+	var out []fw.Call
+	for _, c := range []struct {
+		text      string
+		sids, vid []string
+	}{{"hello\n", []string{"k1"}, []string{"k1"}}, {"a\nb\n", []string{"k1", "k2"}, []string{"k2"}}, {"x\n", []string{"k3"}, []string{"k1"}}, {"x\n", []string{"bad"}, []string{"k1"}}} {
+		c := c
+		out = append(out, fw.Call{Name: fmt.Sprintf("sign-open(%q,%v,%v)", c.text, c.sids, c.vid), F: func() string {
+			msg, class := signOpen(c.text, c.sids, c.vid)
+			return msg + "|" + class
+		}})
+	}
+	for _, m := range []string{"a\n\n— k1.example AAAAAAA=\n", "a\n", "a\n\n— x AAAAAAA=\n— x AAAAAAA=\n", ""} {
+		m := m
+		out = append(out, fw.Call{Name: fmt.Sprintf("open(%q)", m), F: func() string {
+			msg, class := openCase(m, []string{"k1", "k2"})
+			return msg + "|" + class
+		}})
+	}
+	out = append(out, fw.Call{Name: "NewVerifier/NewSigner", F: func() string {
+		_, e1 := note.NewVerifier("k1.example+00000000+AAAA")
+		_, e2 := note.NewSigner("PRIVATE+KEY+k1.example+00000000+AAAA")
+		_, e3 := note.NewVerifier("")
+		return fmt.Sprint(e1, e2, e3)
+	}})
+	return out
+}
+
 func Run(r *fw.Run) {
+	defer fw.FirstCallOrders(r, r.ID, FirstCalls(), nil)
 	Lt := r.Pick(5, 6)
 	r.Bounds["text_alphabet"] = []string{"a", "\\n", "em-dash+space", "space", "é", "0x01", "0xFF", "U+FFFD (validly encoded)"}
 	r.Bounds["text_max_len"] = Lt
